@@ -46,6 +46,17 @@ static int op_drg(int argc, char **argv, FILE *o) {
     randombytes_buf_deterministic(out, (size_t) size, seed.p);
     hx_put_hex(o, out, size); free(out); hx_free(&seed); return 0;
 }
+/* rng.drg.alias <size> <seed> <off>: the seed is kept INSIDE the output buffer at offset off (off + 32 <= size) — the key-erasure /
+   ratchet form buf_deterministic(state, n, state); the result must still be the keystream of the seed that was passed in */
+static int op_drg_alias(int argc, char **argv, FILE *o) {
+    uint64_t size, off; buf_t seed; unsigned char *out;
+    if (argc != 3 || hx_u64(argv[0], &size) || size > (1u << 24) || hx_hex(argv[1], &seed) || hx_u64(argv[2], &off)) return -1;
+    if (seed.n != 32 || off + 32 > size) { hx_free(&seed); return -1; }
+    out = (unsigned char *) hx_alloc(size); memset(out, 0x5c, size);
+    memcpy(out + off, seed.p, 32);
+    randombytes_buf_deterministic(out, (size_t) size, out + off);
+    hx_put_hex(o, out, size); hx_release(out); hx_free(&seed); return 0;
+}
 static void drg_guard_run(void *a, FILE *o) { static unsigned char b[4096], seed[32]; (void) o; randombytes_buf_deterministic(b, (size_t) *(uint64_t *) a, seed); }
 static int op_drg_guard(int argc, char **argv, FILE *o) {
     uint64_t size; char out[8]; int r;
@@ -142,6 +153,6 @@ static int op_gen_inner(int argc, char **argv, FILE *o) {
 #define HIST(NAME, BASE, K) static int NAME(int c, char **v, FILE *o) { int r; rng_pre = K; r = BASE(c, v, o); rng_pre = 0; return r; }
 HIST(op_gen_h1, op_gen, 1) HIST(op_gen_h2, op_gen, 2) HIST(op_gen_h3, op_gen, 3)
 HIST(op_uniform_h1, op_uniform, 1) HIST(op_uniform_h2, op_uniform, 2) HIST(op_uniform_h3, op_uniform, 3)
-const hx_op ops_c18[] = { {"rng.uniform", op_uniform}, {"rng.drg", op_drg}, {"rng.drg_guard", op_drg_guard}, {"rng.gen", op_gen},
+const hx_op ops_c18[] = { {"rng.uniform", op_uniform}, {"rng.drg", op_drg}, {"rng.drg.alias", op_drg_alias}, {"rng.drg_guard", op_drg_guard}, {"rng.gen", op_gen},
     {"rng.gen.h1", op_gen_h1}, {"rng.gen.h2", op_gen_h2}, {"rng.gen.h3", op_gen_h3},
     {"rng.uniform.h1", op_uniform_h1}, {"rng.uniform.h2", op_uniform_h2}, {"rng.uniform.h3", op_uniform_h3}, {NULL, NULL} };
